@@ -658,7 +658,20 @@ func c15InSitu(b []byte) *core.Finding {
 	}
 	stream := append([]byte{0xc0}, b...)
 	if wok {
-		stream = append(append([]byte{0xc0}, b[:wn]...), make([]byte, wv)...)
+		// a frame that is valid whatever the length says: PINGREQ (0), DISCONNECT
+		// with a reason code (1), PUBACK in its short forms (2, 3), PUBLISH at
+		// QoS 0 with topic "t", no properties and a payload of zeros (4 and more)
+		first, body := byte(0xc0), make([]byte, wv)
+		switch {
+		case wv == 1:
+			first = 0xe0
+		case wv == 2 || wv == 3:
+			first, body[1] = 0x40, 0x01
+		case wv >= 4:
+			first = 0x30
+			body[1], body[2] = 0x01, 't'
+		}
+		stream = append(append([]byte{first}, b[:wn]...), body...)
 	}
 	stream = append(stream, 0xd0) // the first byte of what follows
 	rd := &env.Reader{Data: stream}
